@@ -348,14 +348,16 @@ func (w *wWorld) runPair(a, b wAct, o *wConcObs) {
 				}
 				break
 			}
+			time.Sleep(30 * time.Microsecond) // B is on its way; the observer need not burn a core
+		} else {
+			runtime.Gosched()
 		}
-		runtime.Gosched()
 	}
 	<-doneA
 	<-doneB
 	// A's first lock segment holds a key derivation (the model says so: Long), which takes at least DkUs: B seen
 	// engaged well before that is engaged during A's first segment
-	o.First = o.Overlapped && o.AInLock && o.ModeSeen == o.ModeStart && o.SeenUs < w.sh.dkUs/2
+	o.First = o.Overlapped && o.AInLock && o.ModeSeen == o.ModeStart && o.SeenUs < w.sh.dkUs*3/4
 	o.DkUs = w.sh.dkUs
 	postA()
 	postB()
@@ -369,16 +371,16 @@ func (w *wWorld) concObserve(o *wConcObs) {
 		return
 	}
 	o.Re = w.view(re, false)
-	// what GetDefaultAccount serves
+	// what GetDefaultAccount serves (looked at when the default account of the live client is not the listed account
+	// that the reopened wallet names)
 	o.DfltOpens = []string{}
 	o.DfltListed = true
 	listed := map[string]bool{}
-	for i := 1; ; i++ {
-		m := w.cli.GetAccountMetadataByIndex(i)
-		if m == nil {
-			break
-		}
-		listed[m.Address] = true
+	for _, m := range o.Live.List {
+		listed[w.addr(m.Id)] = true
+	}
+	if o.Live.Dflt == o.Re.Dflt && (o.Live.Dflt.Id == 0 || listed[w.addr(o.Live.Dflt.Id)]) {
+		return
 	}
 	for _, p := range w.sh.in.Pwds {
 		acc, err := w.cli.GetDefaultAccount([]byte(p))
